@@ -1,7 +1,7 @@
 (** Executable glue for the correspondence run of C10: the C15 case (groups, kerning, names)
     plus the UFO 1 feature data; the model's load outcome and feature text are compared with
     what the implementation returned on the first of its repeated loads. Definitions only. *)
-Require Import Norad.Run.RunBase Norad.Model.Groups Norad.Run.C15.
+Require Import Norad.Run.RunBase Norad.Model.Groups Norad.Model.StoreWrite Norad.Run.C15.
 Open Scope N_scope.
 
 (** classes, order list, blocks (ascending by tag: the BTreeMap), features.fea - as name indices *)
@@ -27,13 +27,38 @@ Definition run_case10 (tb : list str) (c : case) (f : fcase) : otm :=
               end in
   OL [core; OS (un (load_features tb (c_ver c) f))].
 
-Fixpoint mism10_aux (ts : list string) (tb : list str) (cs : list (N * (case * fcase * etm)))
-  : list (N * otm) :=
+(** one store: entries (ascending keys; the model may take any order, C10_store_write_commutes),
+    and what the save left below the store's directory: directories and files with content *)
+Definition scase : Type :=
+  (list (list N * list N) * list (list N) * list (list N * list N))%type.
+
+Definition store_ok (tb : list str) (sc : scase) : bool :=
+  let '(entries, odirs, ofiles) := sc in
+  let cp := map (nm tb) in
+  let es := map (fun e => (cp (fst e), snd e)) entries in
+  let od := map cp odirs in
+  let ofl := map (fun e => (cp (fst e), snd e)) ofiles in
+  match write_all es ([], []) with
+  | None => false
+  | Some s =>
+      forallb (fun d => is_dir d s) od &&
+      forallb (fun d => existsb (path_eqb d) od) (fst s) &&
+      forallb (fun e => match flookup (fst e) (snd s) with
+                        | Some bs => list_eqb N.eqb bs (snd e) | None => false end) ofl &&
+      forallb (fun e => existsb (fun o => path_eqb (fst e) (fst o)) ofl) (snd s)
+  end.
+
+Fixpoint mism10_aux (ts : list string) (tb : list str)
+         (cs : list (N * (case * fcase * etm * scase * scase))) : list (N * otm) :=
   match cs with
   | [] => []
-  | (i, (c, f, e)) :: r =>
+  | (i, (c, f, e, sd, si)) :: r =>
       let m := run_case10 tb c f in
-      if otm_eqb m (resolve ts e) then mism10_aux ts tb r else (i, m) :: mism10_aux ts tb r
+      let rest := mism10_aux ts tb r in
+      let r1 := if otm_eqb m (resolve ts e) then rest else (i, m) :: rest in
+      if store_ok tb sd && store_ok tb si then r1
+      else (i, OL [OS "store tree differs from the model of the writing loop"%string]) :: r1
   end.
-Definition mism10 (ts : list string) (cs : list (N * (case * fcase * etm))) : list (N * otm) :=
+Definition mism10 (ts : list string) (cs : list (N * (case * fcase * etm * scase * scase)))
+  : list (N * otm) :=
   mism10_aux ts (map b ts) cs.
